@@ -98,6 +98,16 @@ pub fn replay(ctx: &Ctx, path: &str) -> i32 {
     };
     let id = v["property"].as_str().unwrap_or(&ctx.id).to_string();
     let w = &v["witness"];
+    if matches!(w["kind"].as_str(), Some("process") | Some("budget")) {
+        // the witness is the whole exploration (it died or did not finish): run it again, in a
+        // supervised child like a normal run
+        println!("replay {path}: the witness is the whole quick exploration; running it again");
+        let exe = std::env::current_exe().unwrap_or_else(|_| "fpverif".into());
+        return match std::process::Command::new(exe).args([id.as_str(), "--tier", "quick"]).status() {
+            Ok(s) => s.code().unwrap_or(1),
+            Err(_) => 2,
+        };
+    }
     let (a, b) = match (replay_one(&id, w), replay_one(&id, w)) {
         (Ok(a), Ok(b)) => (a, b),
         (Err(e), _) | (_, Err(e)) => {
@@ -144,6 +154,7 @@ pub fn child(args: &[String]) -> i32 {
             0
         }
         Some("programs") if args.len() >= 2 => children::child_programs(&args[1]),
+        Some("family") if args.len() >= 3 => child_family(&args[1], &args[2]),
         _ => {
             eprintln!("unknown child mode {args:?}");
             2
@@ -171,4 +182,70 @@ pub fn bound_addendum(id: &str) -> &'static str {
         "C05" | "C06" | "C07" | "C12" | "C13" => "",
         _ => "",
     }
+}
+
+/// Run one family of a check in a child process under a virtual-memory limit and a wall budget:
+/// a change that makes the subject's output (or the harness's model of it) grow without bound on
+/// very large trees must end as a reported violation, not as a killed check.
+pub fn run_isolated(id: &str, family: &str, what: &str) -> speclib::report::Acc {
+    use speclib::report::{Acc, Violation};
+    let exe = children::exe("release");
+    let mut acc = Acc::new();
+    let script = format!("ulimit -v 16777216; exec \"{}\" child family {id} {family}", exe.display());
+    let mut child = match std::process::Command::new("sh").arg("-c").arg(&script).stdout(std::process::Stdio::piped()).stderr(std::process::Stdio::null()).spawn() {
+        Ok(c) => c,
+        Err(_) => return acc,
+    };
+    let start = std::time::Instant::now();
+    let status = loop {
+        match child.try_wait() {
+            Ok(Some(s)) => break Some(s),
+            Ok(None) => {
+                if start.elapsed().as_secs() > 240 {
+                    let _ = child.kill();
+                    let _ = child.wait();
+                    break None;
+                }
+                std::thread::sleep(std::time::Duration::from_millis(100));
+            }
+            Err(_) => break None,
+        }
+    };
+    let mut out = String::new();
+    if let Some(mut o) = child.stdout.take() {
+        use std::io::Read;
+        let _ = o.read_to_string(&mut out);
+    }
+    let parsed: Option<serde_json::Value> = out.lines().rev().find_map(|l| serde_json::from_str(l).ok());
+    match (status, parsed) {
+        (Some(s), Some(v)) if s.success() => {
+            acc.states += v["states"].as_u64().unwrap_or(0);
+            acc.transitions += v["transitions"].as_u64().unwrap_or(0);
+            acc.validated += v["validated"].as_u64().unwrap_or(0);
+            for x in v["violations"].as_array().cloned().unwrap_or_default() {
+                acc.violate(Violation::new(x["sig"].as_str().unwrap_or("?").to_string(), x["what"].as_str().unwrap_or("").to_string(), x["witness"].clone()));
+            }
+        }
+        (s, _) => {
+            acc.states += 1;
+            acc.violate(Violation::new(
+                format!("{id}:very-large-tree:process-died-or-did-not-finish"),
+                format!("{what}: the child process running this family {} (memory limit 16 GiB, 240 s): compiling or running a very large tree exhausts memory, the stack or time", match s { Some(s) => format!("ended with {s}"), None => "did not finish".to_string() }),
+                serde_json::json!({"kind": "huge", "family": family}),
+            ));
+        }
+    }
+    acc
+}
+
+/// child side of `run_isolated`
+pub fn child_family(id: &str, family: &str) -> i32 {
+    let acc = match (id, family) {
+        ("C09", "huge") => c09::huge_family(),
+        ("C16", "deep") => c16::deep_family(),
+        _ => return 2,
+    };
+    let viol: Vec<serde_json::Value> = acc.violations.values().map(|(v, _)| serde_json::json!({"sig": v.sig, "what": v.what, "witness": v.witness})).collect();
+    println!("{}", serde_json::json!({"states": acc.states, "transitions": acc.transitions, "validated": acc.validated, "violations": viol}));
+    0
 }
